@@ -108,12 +108,14 @@ Definition check_case (c : case) : list nat :=
               | Some (Some f) => Some f
               | _ => None
               end in
+  (* the model's gateway answer, evaluated once (components 3 and 6) *)
+  let ans := option_map norm (fed_exec w g first_owner false true (c_query c)) in
   (if opt_nodes_eqb flat (c_flat c) then [] else [1]) ++
   (if c_explicit c then
      let p := match flat with Some f => plan_root g first_owner (2 * fuel + 2) f | None => None end in
      if opt_plan_eqb p (c_plan c) then [] else [2]
    else []) ++
-  (if opt_json_eqb (option_map norm (fed_exec w g first_owner false true (c_query c))) (c_answer c) then [] else [3]) ++
+  (if opt_json_eqb ans (c_answer c) then [] else [3]) ++
   (match c_ref c with
    | None => []
    | Some r => if opt_json_eqb (option_map norm (eval_ref w g false (2 * depth_list (c_query c) + 4) "Query" 0%Z (c_query c))) (Some r)
@@ -130,8 +132,7 @@ Definition check_case (c : case) : list nat :=
      union values) are the same map -- the instance of the theorem, recomputed *)
   (if c_in_scope c then
      if premises g (c_calls c) first_owner (c_query c) &&
-        opt_json_eqb (option_map norm (fed_exec w g first_owner false true (c_query c)))
-                     (option_map norm (eval_ref w g true fuel "Query" 0%Z (c_query c)))
+        opt_json_eqb ans (option_map norm (eval_ref w g true fuel "Query" 0%Z (c_query c)))
      then [] else [6]
    else []).
 
